@@ -90,7 +90,7 @@ def run(ctx):
                 store, via = cfgs_m[(i + 3 * k) % len(cfgs_m)]
                 base = "/buckets/bk%d" % rng.randrange(2) if (store == "leveldb3" and rng.random() < 0.4) else "/t"
                 execs.append(script_from_hist(h, rng, store, via, base))
-        n4 = 1500 if ctx.thorough else 120
+        n4 = 2500 if ctx.thorough else 120
         for i in range(n4):
             store, via = cfgs_m[i % len(cfgs_m)]
             base = "/buckets/bk%d" % rng.randrange(2) if (store == "leveldb3" and rng.random() < 0.4) else "/t"
